@@ -335,7 +335,7 @@ theorem pathEnc_err {c : Cfg} {v : Val} {e : Out} (h : pathEnc c v = .error e) :
     | obj fields =>
       simp only at h
       rcases ite_err_err h with h | h
-      · exact Or.inr h.symm
+      · exact Or.inl h.symm
       · rcases ite_err_err h with h | h
         · exact Or.inl h.symm
         · cases h
